@@ -14,6 +14,7 @@ import (
 
 	ps "seehuhn.de/go/postscript"
 	"seehuhn.de/go/postscript/afm"
+	"seehuhn.de/go/postscript/psenc"
 	"seehuhn.de/go/postscript/type1"
 
 	"vharness/corpus"
@@ -120,6 +121,52 @@ func observe(seed int64, nInputs, reps int) []map[string]any {
 			m.Write(&buf)
 			rec("Metrics.Write", inm, sha(buf.Bytes()), r)
 		}
+	}
+	// writing is independent of what was written before: a font that uses the package's
+	// StandardEncoding table itself as its encoding (and lacks glyphs the table names), a font with
+	// its own copy of the table, and a custom one, each written before and after the others
+	{
+		mk := func(name string, glyphs []string, enc []string) *type1.Font {
+			f := fontgen.Generate(rand.New(rand.NewSource(seed+77)), fontgen.Opts{NGlyphs: 1, Encoding: "none", Zone: "utc"})
+			f.FontName = name
+			for k, g := range glyphs {
+				gl := &type1.Glyph{WidthX: float64(400 + 50*k)}
+				gl.MoveTo(0, 0)
+				gl.LineTo(float64(100+10*k), 0)
+				gl.LineTo(50, float64(300+k))
+				gl.ClosePath()
+				f.Glyphs[g] = gl
+			}
+			f.Encoding = enc
+			return f
+		}
+		own := append([]string{}, psenc.StandardEncoding[:]...)
+		custom := make([]string, 256)
+		for k := range custom {
+			custom[k] = ".notdef"
+		}
+		custom[65], custom[66] = "B", "A"
+		fonts := []*type1.Font{
+			mk("OwnCopy", []string{"A", "B", "space", "exclam"}, own),
+			mk("SharesTheTable", []string{"A", "space"}, psenc.StandardEncoding[:]),
+			mk("Custom", []string{"A", "B"}, custom),
+		}
+		before := strings.Join(psenc.StandardEncoding[:], " ")
+		for r := 0; r < 2; r++ {
+			for _, f := range fonts {
+				for _, ft := range t1Formats {
+					var buf bytes.Buffer
+					f.Write(&buf, &type1.WriterOptions{Format: ft.f})
+					rec("Font.Write/order/"+ft.name, f.FontName, sha(buf.Bytes()), r)
+				}
+				var buf bytes.Buffer
+				f.WritePDF(&buf)
+				rec("Font.WritePDF/order", f.FontName, sha(buf.Bytes()), r)
+			}
+		}
+		// the table itself is the same afterwards (the first digest is taken before any writing)
+		rec("psenc.StandardEncoding", "table", sha([]byte(before)), 0)
+		rec("psenc.StandardEncoding", "table", sha([]byte(strings.Join(psenc.StandardEncoding[:], " "))), 1)
 	}
 	// reads of fixed inputs, and a file defining several CMaps
 	var multi strings.Builder
